@@ -399,6 +399,7 @@ func main() {
 	outLean := flag.String("lean", "", "Facts.lean to write")
 	outFp := flag.String("fp", "", "fingerprints JSON to write")
 	outKernels := flag.String("kernels", "", "Kernels.lean to write (translated integer kernels; \"-\" = stdout)")
+	outFuncs := flag.String("funcs", "", "Funcs.lean to write (translated whole functions; \"-\" = stdout)")
 	flag.Parse()
 
 	cfg := &packages.Config{
@@ -995,6 +996,11 @@ func main() {
 	// translated integer kernels (kernels.go)
 	if *outKernels != "" {
 		c.emitKernels(*repo, *outKernels)
+	}
+
+	// translated whole functions (funcs.go)
+	if *outFuncs != "" {
+		c.emitFuncs(*repo, *outFuncs)
 	}
 
 	// fingerprints
